@@ -11,6 +11,11 @@ MIRDUMP_DIR = os.path.join(common.VERIF, "engines", "mirdump")
 MIRDUMP_BIN = os.path.join(MIRDUMP_DIR, "target", "debug", "mirdump")
 
 
+# std items that are summarised instead of interpreted (set semantics; RandomState needs OS randomness)
+SKIP = ["std::collections::HashSet::<", "std::collections::HashSet<", "hashbrown::", "std::hash::RandomState",
+        "std::collections::HashMap<", "std::collections::HashMap::<"]
+
+
 def nightly_lib():
     c = glob.glob(os.path.expanduser("~/.rustup/toolchains/nightly-x86_64-unknown-linux-gnu/lib"))
     return c[0]
@@ -34,6 +39,7 @@ def dump(scratch, out, only=None, extra_cfg=()):
         "RUSTFLAGS": "--cfg verif_mir -C debug-assertions=off -C overflow-checks=on -Awarnings "
                      + " ".join("--cfg " + c for c in extra_cfg),
         "RUSTUP_TOOLCHAIN": "nightly",
+        "MIRDUMP_SKIP": ",".join(SKIP),
     })
     if only:
         env["MIRDUMP_ONLY"] = only
